@@ -19,6 +19,7 @@ persist  G3/O3  the same machinery with '..' routes, save_as forms, slash/space/
                 output directory, nothing else changes.
 """
 import fnmatch
+import logging
 import os
 import shlex
 import sys
@@ -41,8 +42,9 @@ RULE = ("contain: tree = root R (name generated) with fixed inner files, 0-3 sib
         "probe path contains '..' or crosses a symlink and a prefix-sharing sibling exists. "
         "deny: 2-7 specs over the nine factories, items drawn from a fixed tree / command vocabulary, "
         "deny entries = items, word-boundary prefixes of commands, near misses and unrelated strings, "
-        "denied component names; non-trivial: one factory has both a denied and an allowed, collected "
-        "item in the same case. persist: specs with '..' routes (climb above the root and return), "
+        "denied component names (full names under 'components', symbolic names of nine shipped "
+        "DefaultSpecs entries under files/commands); non-trivial: one factory has both a denied and an "
+        "allowed, collected item in the same case. persist: specs with '..' routes (climb above the root and return), "
         "save_as in file/dir form with leading '/', absolute save_as into a decoy dir, commands whose "
         "arguments contain '/', '..', spaces, container paths with '..', hand-made DatasourceProviders; "
         "non-trivial: save_as set or a '..' present. Distinct by the whole case.")
@@ -60,12 +62,16 @@ ASSUMPTIONS = [
 EXCLUDED = [
     "save_as / DatasourceProvider.relative_path containing '..' segments (spec-author constants documented "
     "as relative paths; the statement quantifies '..' over collected paths only)",
-    "symbolic spec names in the deny list's files/commands (need insights.specs.default loaded); denied "
-    "components are given by full component name through the 'components' key instead",
+    "symbolic spec names are drawn from nine simple shipped specs (hosts, fstab, cmdline, os_release, "
+    "resolv_conf, date, hostname, mount, uptime); the other ~900 shipped specs are not run",
     "listdir/listglob (yield names, not file content)",
 ]
 
 MOD = "vp_dyn_c06"
+
+# the library warns about every skipped item; without any handler Python's last-resort handler would
+# print each of them to stderr
+logging.getLogger("insights").addHandler(logging.NullHandler())
 
 
 # =================================================================================================
@@ -274,13 +280,13 @@ def flat(v):
     return list(v) if isinstance(v, list) else [v]
 
 
-def run_world(Specs, Impl, names, ctx, ctxcls, out=None, persist="observer"):
+def run_world(Specs, Impl, names, ctx, ctxcls, out=None, persist="observer", extra=()):
     """dr.run over all generated components, persisting every registry point like collect() does."""
     from insights.core import dr
     from insights.core.serde import Hydration
     broker = dr.Broker()
     broker[ctxcls] = ctx
-    comps = [getattr(Specs, n) for n in names]
+    comps = [getattr(Specs, n) for n in names] + list(extra)
     graph = {}
     for c in comps:
         graph.update(dr.get_dependency_graph(c))
@@ -673,6 +679,14 @@ D_PATTERNS = ["/etc/*", "/etc/*.conf", "/etc/a.con*", "/etc/hosts*", "/var/log/m
 D_EXES = ["{X}/ls", "{X}/lsblk", "{X}/ls-l", "{X}/cat"]
 D_ARGS = ["-l", "-a", "-la", "/etc", "/etc/a.conf", "-l /etc", "--all -l", "x", "-l -a /var/log"]
 D_FILE_TOKEN = "TOKEN<%s>"
+# shipped specs that can be denied by their symbolic name (insights.specs.default.DefaultSpecs.<name>)
+SYM_SPECS = {"hosts": ("file", "/etc/hosts"), "fstab": ("file", "/etc/fstab"), "cmdline": ("file", "/proc/cmdline"),
+             "os_release": ("file", "/etc/os-release"), "resolv_conf": ("file", "/etc/resolv.conf"),
+             "date": ("cmd", "/bin/date"), "hostname": ("cmd", "/bin/hostname -f"), "mount": ("cmd", "/bin/mount"),
+             "uptime": ("cmd", "/usr/bin/uptime")}
+SYM_NAMES = sorted(SYM_SPECS)
+# every file of the deny tree (a glob like /etc/* reaches the files of the shipped specs as well)
+D_TREE_FILES = D_FILES + sorted(p for k, p in SYM_SPECS.values() if k == "file" and p not in D_FILES)
 
 
 def d_entries():
@@ -682,17 +696,19 @@ def d_entries():
                      "c": "%s keep\nplain line of %s\nkeep another\n" % (D_FILE_TOKEN % p, p)})
     for x in D_EXES:
         ents.append({"t": "f", "p": "x/" + x.split("/", 1)[1], "c": "#!/bin/sh\nexit 0\n", "mode": 0o755})
+    for p in D_TREE_FILES[len(D_FILES):]:
+        ents.append({"t": "f", "p": "w/R" + p, "c": "%s\nsecond line\n" % (D_FILE_TOKEN % p)})
     return ents
 
 
 def d_file_items(spec):
     f = spec["f"]
     if f in ("simple_file", "first_file"):
-        return [p for p in expand(spec) if p in D_FILES]
+        return [p for p in expand(spec) if p in D_TREE_FILES]
     out = []
     for pat in expand(spec):
         pat = pat if pat.startswith("/") else "/" + pat
-        for p in seg_glob(pat, D_FILES):
+        for p in seg_glob(pat, D_TREE_FILES):
             if p not in out:
                 out.append(p)
     return out
@@ -715,6 +731,10 @@ def check_deny(case):
     specs = case["specs"]
     labels = ["via=" + case["via"]]
     calls = []
+    sym = case.get("symbolic") or {"run": [], "deny": []}
+    if sym["run"]:
+        # the shipped spec set has to be loaded before the registries are snapshotted
+        import insights.specs.default  # noqa
     with Sandbox(d_entries()) as sb, GlobalState():
         base = sb.base
         R = os.path.join(base, "w", "R")
@@ -733,9 +753,16 @@ def check_deny(case):
         deny_cmds = [sub(c) for c in case["deny"]["commands"]]
         deny_comps = [n for n in case["deny"]["components"] if hasattr(Impl, n)]
         full = ["%s.Impl.%s" % (MOD, n) for n in deny_comps]
+        sym_points, sym_impls = [], []
+        if sym["run"]:
+            from insights.specs import Specs as ShippedSpecs
+            from insights.specs.default import DefaultSpecs
+            sym_points = [getattr(ShippedSpecs, n) for n in sym["run"]]
+            sym_impls = [getattr(DefaultSpecs, n) for n in sym["run"]]
         if case["via"] == "apply":
-            apply_blacklist({"files": list(deny_files), "commands": list(deny_cmds), "components": full,
-                             "patterns": [], "keywords": []})
+            apply_blacklist({"files": list(deny_files) + [d["name"] for d in sym["deny"] if d["sec"] == "files"],
+                             "commands": list(deny_cmds) + [d["name"] for d in sym["deny"] if d["sec"] != "files"],
+                             "components": full, "patterns": [], "keywords": []})
         else:
             for f in deny_files:
                 blacklist.add_file(f)
@@ -744,10 +771,14 @@ def check_deny(case):
             for n in deny_comps:
                 dr.set_enabled(getattr(Impl, n), False)
         with audit_trace(needles=None, names=DEFAULT_EVENTS) as events:
-            broker = run_world(Specs, Impl, names, ctx, HostContext, out=out, persist=case["persist"])
+            broker = run_world(Specs, Impl, names, ctx, HostContext, out=out, persist=case["persist"],
+                               extra=sym_points)
             results = {}
             for n in names:
                 results[n] = flat(broker.get(getattr(Impl, n)))
+            for n, impl in zip(sym["run"], sym_impls):
+                results["default:" + n] = flat(broker.get(impl))
+            for n in sorted(results):
                 for p in results[n]:
                     try:
                         p.content
@@ -763,9 +794,33 @@ def check_deny(case):
                 raise Violation("component %s.Impl.%s is on the deny list (%s) but was invoked"
                                 % (MOD, n, case["via"]), calls=calls)
 
+        # ---- shipped specs denied by their symbolic name are never invoked
+        if sym["run"]:
+            from insights.core.exceptions import MissingRequirements
+            denied_sym = set(d["name"] for d in sym["deny"]) if case["via"] == "apply" else set()
+            for n, pt, impl in zip(sym["run"], sym_points, sym_impls):
+                kind, what = SYM_SPECS[n]
+                seen = impl in broker or pt in broker or any(
+                    not isinstance(e, MissingRequirements)
+                    for e in list(broker.exceptions.get(impl, [])) + list(broker.exceptions.get(pt, [])))
+                if n not in denied_sym:
+                    if seen:
+                        labels.append("symbolic:allowed-invoked")
+                    continue
+                labels.append("symbolic:denied")
+                if seen:
+                    raise Violation("spec %r is on the deny list by its symbolic name but "
+                                    "insights.specs.default.DefaultSpecs.%s was invoked" % (n, n),
+                                    value=repr(broker.get(impl)), deny=sym["deny"])
+                if kind == "cmd" and shlex.split(what) in argvs:
+                    raise Violation("spec %r is denied by symbolic name but its command was handed to the "
+                                    "execution context" % n)
+                # (its file may still be collected by another, allowed spec - e.g. a glob - unless the
+                #  path itself is on the deny list, which the next block checks)
+
         # ---- denied files: never opened, never handed to a command, not returned, not persisted
-        all_providers = [(n, p) for n in names for p in results[n]]
-        for f in D_FILES:
+        all_providers = [(n, p) for n in sorted(results) for p in results[n]]
+        for f in D_TREE_FILES:
             if not ref_file_denied(f, deny_files):
                 continue
             real = os.path.join(R, f.lstrip("/"))
@@ -789,7 +844,9 @@ def check_deny(case):
 
         # ---- denied commands: never given to the context, never spawned, not returned, not persisted
         per_factory = {}
-        for n, s in zip(names, specs):
+        sym_cmd_specs = [("default:" + n, {"f": "simple_command", "cmd": SYM_SPECS[n][1]})
+                         for n in sym["run"] if SYM_SPECS[n][0] == "cmd"]
+        for n, s in list(zip(names, specs)) + sym_cmd_specs:
             fac = s["f"]
             st_ = per_factory.setdefault(fac, {"denied": 0, "allowed": 0})
             comp_denied = n in deny_comps or ("p" + n[1:]) in deny_comps
@@ -972,7 +1029,19 @@ def _d_case(draw):
             comps.append("s%d" % i)
         elif r == 23:
             comps.append("p%d" % i)     # only exists for per-item factories; ignored otherwise
-    return {"via": draw(st.sampled_from(["direct", "apply"])),
+    via = draw(st.sampled_from(["apply", "apply", "direct"]))
+    symbolic = {"run": [], "deny": []}
+    if via == "apply" and draw(st.integers(0, 2)) == 0:
+        symbolic["run"] = draw(st.lists(st.sampled_from(SYM_NAMES), min_size=1, max_size=4, unique=True))
+        for n in symbolic["run"]:
+            r = draw(st.integers(0, 9))
+            if r < 4:
+                symbolic["deny"].append({"name": n, "sec": draw(st.sampled_from(["files", "commands"]))})
+            elif r == 4:    # near misses and literal forms do not name the component
+                deny_cmds.append(draw(st.sampled_from([n + "x", n.upper(), n[:-1], " " + n])))
+            elif r == 5:
+                (deny_files if SYM_SPECS[n][0] == "file" else deny_cmds).append(SYM_SPECS[n][1])
+    return {"via": via, "symbolic": symbolic,
             "persist": draw(st.sampled_from(["observer", "observer", "after"])),
             "deny": {"files": [x for x in deny_files if x], "commands": [x for x in deny_cmds if x.strip()],
                      "components": comps},
@@ -1216,4 +1285,13 @@ REGRESSIONS = [
                                                                ["img", "true", "c2", "/etc/a.conf.bak"]]},
             {"f": "simple_command", "cmd": "{X}/cat x", "keep_rc": False},
         ]}),
+    Reg("deny-symbolic-names", "deny", {
+        "via": "apply", "persist": "observer",
+        "symbolic": {"run": ["hosts", "date", "fstab", "uptime", "cmdline"],
+                     "deny": [{"name": "hosts", "sec": "files"}, {"name": "date", "sec": "files"},
+                              {"name": "cmdline", "sec": "commands"}]},
+        "deny": {"files": ["/etc/fstab", "date "], "commands": ["/usr/bin/uptime", "Hosts"], "components": []},
+        "specs": [{"f": "simple_file", "path": "/etc/hosts", "raw": False},
+                  {"f": "glob_file", "patterns": ["/etc/*"], "raw": False},
+                  {"f": "simple_command", "cmd": "{X}/ls", "keep_rc": False}]}),
 ]
